@@ -4,7 +4,7 @@ import core_kernel
 import common
 import binop_gen as G
 import runner
-import wide_iface
+import wide as wide_iface
 
 SPEC = '''
 pub open spec fn sgn_adj(c: int, d: int) -> int { if d < 0 { -c } else { c } }
